@@ -8,7 +8,8 @@ DECIDED = ("for every public install root, in each of the three entry classes (A
            "NOP* ; LDR Rt,[pc,#imm] ; BX Rt where the word the load addresses (Align(PC,4)+imm inside the patch) is byte for byte the "
            "unmodified replacement pointer, Thumb bit kept (R16.1); the write/read address is the function pointer with bit 0 cleared "
            "(R16.2); saved length = written length = 12 at that address (R16.3); Rt is not a register the AAPCS requires a callee to "
-           "preserve (R16.4)")
+           "preserve (R16.4); the restore guard records that same address and length, so the saved bytes go back to exactly the overwritten "
+           "range (R16.5)")
 NOT_DECIDED = "that the core executes the halfwords as the table says; atomicity of the 12-byte write"
 
 AAPCS_PRESERVED = {"r4", "r5", "r6", "r7", "r8", "r9", "r10", "r11", "sp", "lr", "r13", "r14"}
@@ -91,3 +92,10 @@ def run(ck, models, tier):
             else:
                 ck.ob("R16.4", "%s/scratch-register" % state, tm.target, True, "%s entry sequence writes only %s" % (state, sorted(wr)), where(r.ev))
         ck.floor("R16.1", "decoded-entry-patches", n, 18, tm.target)
+        # R16.5 the saved bytes go back to exactly the range that was overwritten: the guard records the patch address (Thumb bit cleared)
+        from .lifecycle import guard_roles, restore_lands_on_entry
+        g = guard_roles(tm)
+        if g.adt and g.addr:
+            restore_lands_on_entry(ck, tm, g, "R16.5", patches.roots_and_roles(tm))
+        else:
+            ck.ob("R16.5", "guard-roles", tm.target, False, "restore guard or its address field not identified: %s" % g.problems)
